@@ -598,7 +598,9 @@ class Ev:
 			rec = REG.records.get(base.ty.rname)
 			if rec and rec.source:
 				try:
-					return self.class_attr(ClassRef(None, cname=rec.source[1], module=rec.source[0]), attr) if f'{rec.source[1]}.{attr}' not in source.load(rec.source[0]).funcs else (_ for _ in ()).throw(EngineError('method'))
+					ca = self.class_attr(ClassRef(None, cname=rec.source[1], module=rec.source[0]), attr)
+					if not isinstance(ca, (FuncRef, ClassRef)):
+						return ca  # a class-level constant read through an instance
 				except EngineError:
 					pass
 				f = None
@@ -1129,7 +1131,8 @@ class Ev:
 	def dict_store(self, d: Val, k: Val, v: Val) -> Val:
 		t = d.ty
 		assert isinstance(t, TDict)
-		return Val(t, t.mk(z3.Store(t.dom(d.term), k.term, z3.BoolVal(True)), z3.Store(t.vals(d.term), k.term, v.term)))
+		present = z3.Select(t.dom(d.term), k.term)
+		return Val(t, t.mk(z3.Store(t.dom(d.term), k.term, z3.BoolVal(True)), z3.Store(t.vals(d.term), k.term, v.term), t.size(d.term) + z3.If(present, 0, 1)))
 
 	def dict_merge(self, a: Val, b: Val) -> Val:
 		t = a.ty
